@@ -10,6 +10,7 @@
   witnesses are proved below (they are the exclusions the property text itself makes).
   Helper lemmas: `Jawk/Lemmas/HashEq.lean`.
 -/
+import Jawk.Lemmas.RunCor
 import Jawk.Lemmas.HashEq
 namespace Jawk.C10
 open Jawk HashEq
@@ -97,5 +98,22 @@ theorem incoherent_neg_zero :
 /-! ### non-vacuity -/
 example : Key (JV.obj [("k".toList, JV.arr [JV.num (.pos 1), JV.str "x".toList])]) := by decide
 example : dedupFirst (fun (a b : Nat) => a == b) [1, 2, 1, 3, 2, 1] = [1, 2, 3] := by decide
+
+
+/-! ### the property as stated: the run with `--unique` against the run without it -/
+
+/-- for a configuration without sort / skip / take / grouping: the rows with `--unique` are the rows without it
+minus every row whose key equals that of an earlier kept row — first occurrences, in order, nothing else removed -/
+theorem unique_config (orc : Oracles) (c : Cfg) (p : Pipeline) (h : build orc c = .ok p)
+    (hu : c.unique = true) (hs : c.sorts = []) (hk : c.skip = 0) (ht : c.take = none) (hg : c.group = none) :
+    ∃ pu, build orc { c with unique := false } = .ok pu ∧
+      ∀ rows, RunCor.R orc p rows = Pipe.dedupFrom [] (RunCor.R orc pu rows) :=
+  RunCor.unique_config_plain orc c p h hu hs hk ht hg
+
+theorem unique_config_sublist (orc : Oracles) (c : Cfg) (p pu : Pipeline) (h : build orc c = .ok p)
+    (hpu : build orc { c with unique := false } = .ok pu)
+    (hu : c.unique = true) (hs : c.sorts = []) (hk : c.skip = 0) (ht : c.take = none)
+    (hg : c.group = none) (rows : List Ctx) : (RunCor.R orc p rows).Sublist (RunCor.R orc pu rows) :=
+  RunCor.unique_config_sublist orc c p pu h hpu hu hs hk ht hg rows
 
 end Jawk.C10
